@@ -267,6 +267,9 @@ pub struct DumpCfg {
     pub app_memory: Vec<(u64, u64)>,
     /// (start, size, offset, perms bits, name, identifier)
     pub user_mappings: Vec<(u64, u64, u64, u8, String, Vec<u8>)>,
+    /// the system range of the caller's mappings begins this far above their (bias-adjusted) start: the two are
+    /// independent inputs, and what is listed is the start
+    pub user_sys_delta: u64,
     /// (phnum, phdr, gate, entry)
     pub direct_auxv: Option<(u64, u64, u64, u64)>,
     /// how long the dumper waits for the SIGSTOP to take effect (None: the library's default)
@@ -384,7 +387,7 @@ pub fn writer_for(t: &Target, cfg: &DumpCfg) -> MinidumpWriter {
                     mapping: MappingInfo {
                         start_address: *st as usize,
                         size: *sz as usize,
-                        system_mapping_info: SystemMappingInfo { start_address: *st as usize, end_address: (*st + *sz) as usize },
+                        system_mapping_info: SystemMappingInfo { start_address: (*st + cfg.user_sys_delta.min(sz.saturating_sub(1))) as usize, end_address: (*st + *sz) as usize },
                         offset: *off as usize,
                         permissions: MMPermissions::from_bits_truncate(*pe),
                         name: Some(name.clone().into()),
